@@ -9,7 +9,7 @@ COMMON_TRUST = [
     "machine integers as mathematical integers (overflow outside the claim; counters assumed < 2^20 where arithmetic occurs)",
 ]
 
-BROKER_H = ["eventlogger/broker_state.go", "eventlogger/broker_ops.go", "eventlogger/c02.go", "eventlogger/c01_c07_c20.go", "eventlogger/c14.go", "eventlogger/c04.go", "eventlogger/c12.go"]
+BROKER_H = ["eventlogger/broker_state.go", "eventlogger/broker_ops.go", "eventlogger/c02.go", "eventlogger/c01_c07_c20.go", "eventlogger/c14.go", "eventlogger/c04.go", "eventlogger/c12.go", "eventlogger/interleave.go"]
 
 PROPS = {
     "C02": dict(
@@ -44,8 +44,9 @@ PROPS = {
         level="other",
         explanation="Inductive step of RegisterNode and RegisterPipeline over symbolic policies (allow/deny/default/arbitrary invalid strings): fails iff the existing entry says DenyOverwrite (or the request is invalid) and then changes nothing; otherwise the stored policy is the requested one; linked pipelines and same-id pipelines of other event types are untouched.",
         jobs=[dict(harness=BROKER_H, entries=r"^H_C07_|^H_C05_RegisterPipeline$", params=dict(quick=dict(K=2, L=2), thorough=dict(K=3, L=3)),
-                   shards=dict(quick=1, thorough=16, H_C05_RegisterPipeline=16, H_C07_pipeline_other_type=8))],
-        must_reach=["C07.node.ok", "C07.node.fail", "C07.othertype.end", "C05.register.ok", "C05.register.fail"],
+                   shards=dict(quick=1, thorough=16, H_C05_RegisterPipeline=16, H_C07_pipeline_other_type=8)),
+              dict(harness=BROKER_H, entries=r"^H_C07_send_vs_overwrite$", params=dict(quick={}, thorough={}), shards=dict(quick=4, thorough=8), maxswitches=dict(quick=3, thorough=5), instrument_locks=True)],
+        must_reach=["C07.node.ok", "C07.node.fail", "C07.othertype.end", "C05.register.ok", "C05.register.fail", "C07.overwrite-vs-send.end"],
         bounds=dict(quick="K=2, L=2; policy strings arbitrary", thorough="K=3, L=3"),
         trusted_base=COMMON_TRUST,
     ),
@@ -109,8 +110,10 @@ PROPS["C13"] = dict(
 PROPS["C04"] = dict(
     level="other",
     explanation="Lockset analysis with solver-decided feasibility: every ordered pair of the 12 Broker API calls is executed symbolically as two concurrent regions from a common pre-state; the executor logs every load/store of every heap cell reachable from shared objects together with the set of sync locks held (mode R/W); two accesses to overlapping cells, at least one a write, with no common lock held exclusively by one side, on a feasible pair of paths = race candidate, which is then replayed natively under go test -race.",
-    jobs=[dict(harness=BROKER_H, entries=r"^H_C04_", params=dict(quick={}, thorough={}), shards=dict(quick=16, thorough=16))],
-    must_reach=["C04.pairs.end"],
+    jobs=[dict(harness=BROKER_H, entries=r"^H_C04_api_pairs$", params=dict(quick={}, thorough={}), shards=dict(quick=16, thorough=16)),
+          dict(harness=BROKER_H, entries=r"^H_C04_mutators_interleaved$|^H_C04_send_vs_registration$|^H_C07_send_vs_overwrite$", params=dict(quick={}, thorough={}),
+               shards=dict(quick=8, thorough=16), maxswitches=dict(quick=3, thorough=5), instrument_locks=True)],
+    must_reach=["C04.pairs.end", "C04.interleaved.end", "C04.send-vs-registration.end", "C07.overwrite-vs-send.end"],
     bounds=dict(quick="all 12x12 ordered API pairs on a registry with 2 nodes, <=2 pipelines of one type, a second type; one Send's internal goroutines on one schedule", thorough="same"),
     assumptions=["a data race is a pairwise notion: pairwise freedom from a common pre-state; happens-before only through sync locks, go statements and channel operations of the library itself", "StopTimeAt (test helper) excluded"],
     trusted_base=COMMON_TRUST,
@@ -118,9 +121,10 @@ PROPS["C04"] = dict(
 PROPS["C12"] = dict(
     level="other",
     explanation="Every Broker API call executed symbolically with a registered node that re-enters Send on the same broker from Process, Close or Reopen; the RWMutex contract of the executor reports (a) any acquisition of a lock the goroutine already holds in a conflicting mode (self-deadlock) and (b) a recursive read lock (deadlocks behind a queued writer under Go's writer preference); locks held at return are asserted empty. Counterexamples are replayed natively with a watchdog (and, for (b), a stream of concurrent writers).",
-    jobs=[dict(harness=BROKER_H, entries=r"^H_C12_", params=dict(quick={}, thorough={}), shards=dict(quick=4, thorough=4)),
+    jobs=[dict(harness=BROKER_H, entries=r"^H_C12_reentry$", params=dict(quick={}, thorough={}), shards=dict(quick=4, thorough=4)),
+          dict(harness=BROKER_H, entries=r"^H_C12_reentry_vs_writer$", params=dict(quick={}, thorough={}), shards=dict(quick=4, thorough=8), maxswitches=dict(quick=3, thorough=5), instrument_locks=True),
           dict(pkg="./filters/gated", harness=["gated/gated.go", "gated/c12.go"], entries=r"^H_C12_", params=dict(quick=dict(G=2), thorough=dict(G=3)), shards=dict(quick=4, thorough=8))],
-    must_reach=["C12.reentry.end", "C12.gated.end"],
+    must_reach=["C12.reentry.end", "C12.gated.end", "C12.reentry-vs-writer.end"],
     bounds=dict(quick="12 API operations x re-entry from {Process, Close, Reopen}; one re-entrant node", thorough="same"),
     trusted_base=COMMON_TRUST,
 )
